@@ -22,14 +22,15 @@ type machine struct {
 	c    *engine.Chooser
 	r    [3]*reg
 	path []string
+	name string // scenario name + initial register file (leaf identity together with path)
 	// defect: set by step when the instruction is about to exercise a specific, separately reported code
 	// path; every oracle failure of that instruction is then reported under this one signature
 	// (one defect = one signature, see FINDINGS.md), so that other failures keep their own.
 	defect string
 }
 
-func newMachine(e *env, c *engine.Chooser, init int) *machine {
-	m := &machine{e: e, c: c}
+func newMachine(e *env, c *engine.Chooser, name string, init int) *machine {
+	m := &machine{e: e, c: c, name: name}
 	for i := range m.r {
 		m.r[i] = e.inits[init][i].clone()
 	}
@@ -68,15 +69,22 @@ func kindClass(kind string) string {
 	return kind
 }
 
+// fail records a violation (deduplicated per signature and worker, see cklib.FailOnce).
+func (m *machine) fail(sig, format string, args ...interface{}) {
+	cklib.FailOnce(m.c, m.name+" "+strings.Join(m.path, " "), sig, format, args...)
+}
+
 // call runs a library call, converting a panic into a recorded violation.
 func (m *machine) call(ins instr, f func() error) (err error, panicked bool) {
 	err, pan := uni.Try(f)
 	if pan != nil {
+		// a panic in the middle of an evaluator method can leave its scratch buffers resized: never reuse it
+		m.e.resetEvaluator()
 		if ins.kind == "uint" && strings.Contains(fmt.Sprint(pan), "invalid value.(type)") {
 			// one root cause for every opcode: bignum.ToComplex has no case for the documented scalar type uint
-			m.c.Fail("C06/scalar/uint/panic-in-bignum.ToComplex", "%s at %v: the documented operand type uint panics: %v", ins.name(), m.path, pan)
+			m.fail("C06/scalar/uint/panic-in-bignum.ToComplex", "%s at %v: the documented operand type uint panics: %v", ins.name(), m.path, pan)
 		} else {
-			m.c.Fail(m.sig(ins, "panic"), "%s at %v on state %s: panic: %v", ins.name(), m.path, m.r[0].brief(), pan)
+			m.fail(m.sig(ins, "panic"), "%s at %v on state %s: panic: %v", ins.name(), m.path, m.r[0].brief(), pan)
 		}
 		return nil, true
 	}
@@ -90,7 +98,7 @@ func (r *reg) brief() string {
 // expectError: the documentation promises an error for this call.
 func (m *machine) expectError(ins instr, err error, why string) int {
 	if err == nil {
-		m.c.Fail(m.sig(ins, "documented-error-missing"), "%s at %v on state %s: %s, but no error was returned", ins.name(), m.path, m.r[0].brief(), why)
+		m.fail(m.sig(ins, "documented-error-missing"), "%s at %v on state %s: %s, but no error was returned", ins.name(), m.path, m.r[0].brief(), why)
 		return stViolated
 	}
 	m.c.Cover("rejected", ins.op+":"+why)
@@ -105,7 +113,7 @@ func (m *machine) forbidden(ins instr, why string) int {
 }
 
 func (m *machine) unexpectedError(ins instr, err error) int {
-	m.c.Fail(m.sig(ins, "unexpected-error"), "%s at %v on state %s: %v", ins.name(), m.path, m.r[0].brief(), err)
+	m.fail(m.sig(ins, "unexpected-error"), "%s at %v on state %s: %v", ins.name(), m.path, m.r[0].brief(), err)
 	return stViolated
 }
 
@@ -609,12 +617,16 @@ func (m *machine) step(ins instr) int {
 		case "2.5xdefault":
 			tgt = ratMul(e.delta, big.NewRat(5, 2))
 		}
+		ratio := ratQuo(tgt, a.scale)
+		if !ratio.IsInt() && a.level >= 1 && a.level-e.k < 0 {
+			// 128-bit mode, level 1: the inner RescaleTo loop runs while newLevel >= 0 and ends at level -1
+			m.defect = "C06/RescaleTo/loop-reaches-level-minus-one"
+		}
 		out = a.ct
 		err, pan := m.call(ins, func() error { return ev.SetScale(a.ct, scaleOfRat(tgt)) })
 		if pan {
 			return stViolated
 		}
-		ratio := ratQuo(tgt, a.scale)
 		if ratio.IsInt() {
 			// integer ratio: exact multiplication, nothing to rescale
 			if err != nil && a.level == 0 {
@@ -717,30 +729,30 @@ func (m *machine) oracle(ins instr) int {
 	r := m.r[0]
 	ct := r.ct
 	if ct == nil || ct.MetaData == nil {
-		c.Fail(m.sig(ins, "nil-output"), "%s at %v: nil output", ins.name(), m.path)
+		m.fail(m.sig(ins, "nil-output"), "%s at %v: nil output", ins.name(), m.path)
 		return stViolated
 	}
 	// (i) metadata, exactly what the operation documents
 	if ct.Level() != r.level {
-		c.Fail(m.sig(ins, "level"), "%s at %v: level %d, documented %d", ins.name(), m.path, ct.Level(), r.level)
+		m.fail(m.sig(ins, "level"), "%s at %v: level %d, documented %d", ins.name(), m.path, ct.Level(), r.level)
 		return stViolated
 	}
 	if ct.Degree() != r.degree {
-		c.Fail(m.sig(ins, "degree"), "%s at %v: degree %d, documented %d", ins.name(), m.path, ct.Degree(), r.degree)
+		m.fail(m.sig(ins, "degree"), "%s at %v: degree %d, documented %d", ins.name(), m.path, ct.Degree(), r.degree)
 		return stViolated
 	}
 	if !scaleMatches(ct.Scale, r.scale) {
-		c.Fail(m.sig(ins, "scale"), "%s at %v: scale 2^%.6f (%s), documented 2^%.6f (%s)", ins.name(), m.path,
+		m.fail(m.sig(ins, "scale"), "%s at %v: scale 2^%.6f (%s), documented 2^%.6f (%s)", ins.name(), m.path,
 			cklib.Log2Scale(ct.Scale), ct.Scale.Value.Text('g', 40), math.Log2(r.sf()), new(big.Float).SetPrec(160).SetRat(r.scale).Text('g', 40))
 		return stViolated
 	}
 	if ct.LogDimensions.Cols != r.logSlots || ct.LogDimensions.Rows != 0 || !ct.IsBatched || !ct.IsNTT {
-		c.Fail(m.sig(ins, "metadata"), "%s at %v: LogDimensions=%v IsBatched=%v IsNTT=%v, want {0 %d} true true", ins.name(), m.path, ct.LogDimensions, ct.IsBatched, ct.IsNTT, r.logSlots)
+		m.fail(m.sig(ins, "metadata"), "%s at %v: LogDimensions=%v IsBatched=%v IsNTT=%v, want {0 %d} true true", ins.name(), m.path, ct.LogDimensions, ct.IsBatched, ct.IsNTT, r.logSlots)
 		return stViolated
 	}
 	for i := range ct.Value {
 		if ct.Value[i].Level() != r.level {
-			c.Fail(m.sig(ins, "level"), "%s at %v: component %d has level %d, ciphertext level %d", ins.name(), m.path, i, ct.Value[i].Level(), r.level)
+			m.fail(m.sig(ins, "level"), "%s at %v: component %d has level %d, ciphertext level %d", ins.name(), m.path, i, ct.Value[i].Level(), r.level)
 			return stViolated
 		}
 	}
@@ -755,11 +767,11 @@ func (m *machine) oracle(ins instr) int {
 	// (ii) value
 	got, err := e.x.DecryptDecode(ct)
 	if err != nil {
-		c.Fail(m.sig(ins, "decode-error"), "%s at %v: %v", ins.name(), m.path, err)
+		m.fail(m.sig(ins, "decode-error"), "%s at %v: %v", ins.name(), m.path, err)
 		return stViolated
 	}
 	if len(got) != len(r.v) {
-		c.Fail(m.sig(ins, "metadata"), "%s at %v: decoded %d slots, want %d", ins.name(), m.path, len(got), len(r.v))
+		m.fail(m.sig(ins, "metadata"), "%s at %v: decoded %d slots, want %d", ins.name(), m.path, len(got), len(r.v))
 		return stViolated
 	}
 	// total bound: propagated ε + the decoder's own FFT error on values of this magnitude, times the safety factor
@@ -771,7 +783,7 @@ func (m *machine) oracle(ins instr) int {
 			worst = d
 		}
 		if !(d <= bound) {
-			c.Fail(m.sig(ins, "value"), "%s at %v: slot %d = %v, model %v, |diff|=%.3g > bound %.3g (eps=%.3g, state %s)", ins.name(), m.path, i, got[i].Float(), r.v[i].Float(), d, bound, r.eps, r.brief())
+			m.fail(m.sig(ins, "value"), "%s at %v: slot %d = %v, model %v, |diff|=%.3g > bound %.3g (eps=%.3g, state %s)", ins.name(), m.path, i, got[i].Float(), r.v[i].Float(), d, bound, r.eps, r.brief())
 			return stViolated
 		}
 	}
